@@ -188,6 +188,8 @@ def step (st : St) (pre post : List String) : St × Verdict :=
   | ["restart"] =>
     let mr := if st.fixed then restartFixed st.stored else restart st.stored
     match mr, post with
+    | some mg, ["PANIC"] =>
+      (st, .propfail "restart-panics" s!"stored={renderUpgrade st.iStored} model={renderGlobals mg}")
     | some mg, [g] =>
       let m := renderGlobals mg
       match parseGlobals g with
@@ -209,7 +211,13 @@ def step (st : St) (pre post : List String) : St × Verdict :=
           else cmp m g
         ({ st with live := mg, iLive := ig, preCodec := false }, v)
       | none => (st, .bad "globals")
-    | none, _ => (st, cmp "PANIC" impl)
+    | none, _ =>
+      -- the model's boot panics (a stored feature string without ':' reaches SliceToExistingMap)
+      if impl ≠ "PANIC" then (st, .diff s!"model=PANIC impl={impl}")
+      else
+        let malformed := st.iStored.features.any fun f => (splitKV f).isNone
+        let d := s!"stored={renderUpgrade st.iStored}: NewPocketCoreApp panics, the node cannot boot"
+        (st, if malformed then .propfail "restart-panics-on-malformed-stored-feature" d else .propfail "restart-panics" d)
     | _, _ => (st, .bad "arity")
   | _ => (st, .bad "op")
 
